@@ -151,18 +151,18 @@ def run_entry(entry, root_path, root_text, root_dir, elsewhere, public):
     try:
         if entry == "open":
             os.chdir(elsewhere)
-            d = mappyfile.open(root_path) if public else impl.todict().transform(impl.parser(True, False).parse_file(root_path))
+            d = mappyfile.open(root_path) if public else impl.open_(root_path)
         elif entry == "open_relative":
             os.chdir(root_dir)
-            d = mappyfile.open("root.map") if public else impl.todict().transform(impl.parser(True, False).parse_file("root.map"))
+            d = mappyfile.open("root.map") if public else impl.open_("root.map")
         elif entry == "load_relative":
             os.chdir(root_dir)
             with open("root.map", encoding="utf-8", newline="") as fp:
-                d = mappyfile.load(fp) if public else impl.todict().transform(impl.parser(True, False).load(fp))
+                d = mappyfile.load(fp) if public else impl.load_(fp)
         elif entry == "load":
             os.chdir(elsewhere)
             with open(root_path, encoding="utf-8", newline="") as fp:
-                d = mappyfile.load(fp) if public else impl.todict().transform(impl.parser(True, False).load(fp))
+                d = mappyfile.load(fp) if public else impl.load_(fp)
         elif entry == "loads_cwd_root":
             os.chdir(root_dir)
             d = mappyfile.loads(root_text) if public else impl.loads(root_text, expand_includes=True)
@@ -178,7 +178,7 @@ def run_entry(entry, root_path, root_text, root_dir, elsewhere, public):
 
 def units(tier):
     us = [("TREES", n, si) for n in range(1, 6) for si in range(len(PATH_STYLES))]
-    us += [("CHAINS",), ("CYCLES",), ("MISSING",), ("NOEXPAND",), ("API",), ("SHARED",)]
+    us += [("CHAINS",), ("CYCLES",), ("MISSING",), ("NOEXPAND",), ("API",), ("SHARED",), ("NOISE",), ("SYMLINK",)]
     return us
 
 
@@ -414,6 +414,102 @@ def run_shared(res):
     R.add_sub(res, "one file included several times (siblings, diamond, two depths)", res["evals"])
 
 
+NOISE_LINES = ['# see data/*.shp', 'SHAPEPATH "/data/*"', '/* a real block comment */', '# ends */ and starts /* again', 'IMAGETYPE "*/"',
+               '# INCLUDE "not_there.map"', 'FONTSET "a /* b"  # c */ d', "SYMBOLSET 'x/*.sym'", '# /*', 'NAME "include me"', "IMAGETYPE 'INCLUDE'"]
+
+
+def run_noise(res):
+    """lines that merely look like comment openers / closers / directives, before and between INCLUDE lines: expansion is still substitution"""
+    def body(root_dir, elsewhere):
+        for si in (0, 5, 8):
+            style = PATH_STYLES[si]
+            for nl in ("\n", "\r\n"):
+                for n1 in NOISE_LINES:
+                    for n2 in (None, NOISE_LINES[0], NOISE_LINES[2]):
+                        clean_dir(root_dir)
+                        files = Files(root_dir, style, nl)
+                        f1, f2 = files.new_name(), files.new_name()
+                        files.files[f1] = '  DEBUG 1' + nl
+                        files.files[f2] = nl.join(["  LAYER", '    NAME "inc"', "    TYPE POINT", "  END"]) + nl
+                        root = ["MAP", "  " + n1, "  " + files.ref(f1)] + (["  " + n2] if n2 else []) + ["  " + files.ref(f2), "END"]
+                        flat = ["MAP", "  " + n1, "  DEBUG 1"] + (["  " + n2] if n2 else []) + ["  LAYER", '    NAME "inc"', "    TYPE POINT", "  END", "END"]
+                        root_text = nl.join(root) + nl
+                        files.files["root.map"] = root_text
+                        files.write()
+                        try:
+                            want = ("ok", D.typed(impl.loads(nl.join(flat) + nl, expand_includes=False)))
+                        except Exception:
+                            R.add_outcome(res, "flat_unparsed")
+                            continue
+                        for entry in ("open", "load_relative", "loads_cwd_root"):
+                            got = run_entry(entry, os.path.join(root_dir, "root.map"), root_text, root_dir, elsewhere, False)
+                            res["evals"] += 1
+                            if got == want:
+                                R.add_outcome(res, "equals_substitution")
+                                res["states"].add(R.h64((n1, n2, style["name"], nl, entry)))
+                            else:
+                                R.add_outcome(res, "differs")
+                                R.add_violation(res, "noise|%s|%s" % (n1, entry), "a line that only looks like a comment delimiter or a directive changes INCLUDE expansion: %s" % (str(got)[:160],),
+                                                {"files": dict(files.files), "entry": entry, "flat": nl.join(flat) + nl}, None)
+
+    with_scratch(body)
+    R.add_sub(res, "look-alike lines before and between INCLUDE lines", res["evals"])
+
+
+def run_symlink(res):
+    """the root Mapfile (or an included file) reached through a symbolic link whose target lives in another directory that holds files
+    of the same relative names: relative INCLUDEs resolve against the directory of the path that was opened, for open and load alike"""
+    def body(root_dir, elsewhere):
+        real = os.path.join(elsewhere, "releases")
+        for style in (PATH_STYLES[0], PATH_STYLES[2], PATH_STYLES[5]):
+            for nl in ("\n", "\r\n"):
+                for what in ("root_is_link", "include_is_link", "both"):
+                    clean_dir(root_dir)
+                    shutil.rmtree(real, ignore_errors=True)
+                    os.makedirs(real)
+                    inc = "%s%s%sinc.map%s%s" % (style["kw"], style.get("sep", " "), style["q"], style["q"], style["trail"])
+                    inc2 = "%s%s%sinc2.map%s%s" % (style["kw"], style.get("sep", " "), style["q"], style["q"], style["trail"])
+                    root_text = nl.join(["MAP", '  NAME "r"', "  " + inc, "END"]) + nl
+                    inc_text = nl.join(['  SHAPEPATH "inc"', "  " + inc2]) + nl
+                    here = {"inc2.map": '  FONTSET "next to the opened path"' + nl}
+                    there = {"inc2.map": '  FONTSET "next to the link target"' + nl, "inc.map": nl.join(['  SHAPEPATH "target inc"', "  " + inc2]) + nl}
+                    for name, text in there.items():
+                        with open(os.path.join(real, name), "w", encoding="utf-8", newline="") as f:
+                            f.write(text)
+                    for name, text in here.items():
+                        with open(os.path.join(root_dir, name), "w", encoding="utf-8", newline="") as f:
+                            f.write(text)
+                    if what in ("root_is_link", "both"):
+                        with open(os.path.join(real, "site.map"), "w", encoding="utf-8", newline="") as f:
+                            f.write(root_text)
+                        os.symlink(os.path.join(real, "site.map"), os.path.join(root_dir, "root.map"))
+                    else:
+                        with open(os.path.join(root_dir, "root.map"), "w", encoding="utf-8", newline="") as f:
+                            f.write(root_text)
+                    if what in ("include_is_link", "both"):
+                        with open(os.path.join(real, "shared_inc.map"), "w", encoding="utf-8", newline="") as f:
+                            f.write(inc_text)
+                        os.symlink(os.path.join(real, "shared_inc.map"), os.path.join(root_dir, "inc.map"))
+                    else:
+                        with open(os.path.join(root_dir, "inc.map"), "w", encoding="utf-8", newline="") as f:
+                            f.write(inc_text)
+                    flat = nl.join(["MAP", '  NAME "r"', '  SHAPEPATH "inc"', '  FONTSET "next to the opened path"', "END"]) + nl
+                    want = ("ok", D.typed(impl.loads(flat, expand_includes=False)))
+                    for entry in ("open", "open_relative", "load", "load_relative", "loads_cwd_root"):
+                        got = run_entry(entry, os.path.join(root_dir, "root.map"), root_text, root_dir, elsewhere, False)
+                        res["evals"] += 1
+                        if got == want:
+                            R.add_outcome(res, "equals_substitution")
+                            res["states"].add(R.h64((what, style["name"], nl, entry)))
+                        else:
+                            R.add_outcome(res, "differs")
+                            R.add_violation(res, "symlink|%s|%s" % (what, entry), "through a symbolic link relative INCLUDEs are not resolved against the directory of the opened path: %s" % (
+                                str(got)[:160],), {"what": what, "entry": entry}, None)
+
+    with_scratch(body)
+    R.add_sub(res, "root Mapfile / include file reached through symbolic links", res["evals"])
+
+
 def run_noexpand(res):
     """expand_includes=False keeps the directives as data and writes them back unchanged: every sequence (<= 3, repeats
     allowed) over an alphabet of include names, in every position relative to an ordinary keyword line"""
@@ -463,6 +559,10 @@ def run_unit(unit):
         run_noexpand(res)
     elif k == "SHARED":
         run_shared(res)
+    elif k == "NOISE":
+        run_noise(res)
+    elif k == "SYMLINK":
+        run_symlink(res)
     else:
         # public-API binding: the module-level open / load / loads on a bounded subset
         run_trees(res, 3, 0, public=True, limit=6)
